@@ -13,6 +13,7 @@ import (
 	"sort"
 	"strings"
 	"testing"
+	"verifharness/oracle/rfc2397"
 
 	"github.com/tdewolff/minify/v2"
 	mcss "github.com/tdewolff/minify/v2/css"
@@ -777,6 +778,34 @@ func checkDataURI(c Case, hd hostDoc, s *setup, outS string, merr error, show fu
 	if got != want {
 		return changed, true, show("the data URI in the host output is %q, minify.DataURI gives %q for %q", got, want, in)
 	}
+	// independent of minify.DataURI: the minifier registered for the media type gets the parameters the URI carries
+	header := strings.TrimPrefix(in, "data:")
+	if i := strings.IndexByte(header, ','); i >= 0 {
+		header = header[:i]
+	}
+	header = strings.TrimSuffix(header, ";base64")
+	if _, wantP, err := mime.ParseMediaType(header); err == nil {
+		if len(wantP) == 0 {
+			wantP = nil
+		}
+		dec, _, ok := rfc2397.Decode([]byte(in))
+		for _, cl := range *s.calls {
+			// the call for the URI's payload (other embedded content of the type is around as well)
+			if !ok || len(dec.Payload) == 0 || !strings.HasPrefix(cl.Name, "target") || cl.In != string(dec.Payload) {
+				continue
+			}
+			gotP := map[string]string{}
+			for k, v := range cl.Params {
+				gotP[strings.ToLower(k)] = v // parameter names are case-insensitive
+			}
+			if len(gotP) == 0 {
+				gotP = nil
+			}
+			if !paramsEqual(gotP, wantP) {
+				return changed, true, show("the minifier registered for %s was given params %s, the data URI carries %s", s.expectMT, fmtParams(cl.Params), fmtParams(wantP))
+			}
+		}
+	}
 	return changed, want != in, nil
 }
 
@@ -923,6 +952,10 @@ func genCase(t *rapid.T, g0 map[string]bool) Case {
 			c.Tag, c.Attr = "a", "href"
 		}
 		mt := rapid.SampledFrom([]string{"text/css", "text/css", "application/javascript", "text/plain", "", "image/svg+xml", "text/html", "text/x-unknown"}).Draw(t, "datamt")
+		if mt != "" && rapid.IntRange(0, 2).Draw(t, "dataparams") == 0 {
+			// parameters of the media type are handed to the minifier
+			mt += rapid.SampledFrom([]string{";charset=utf-8", ";inline=1", ";x=y", ";charset=iso-8859-1;a=b", ";CHARSET=UTF-8"}).Draw(t, "dataparam")
+		}
 		body := genText(t, "databody", 6, nil)
 		if rapid.Bool().Draw(t, "b64") {
 			c.Payload = "data:" + mt + ";base64," + b64(body)
